@@ -63,6 +63,10 @@ func runC07(cfg config) {
 		{"OEq", "%s = %s", "1"}, {"ONe", "%s != %s", "1"}, {"OConcat", "%s & %s", "'a'"},
 		{"OAdd", "%s + %s", "'s'"}, {"OAdd", "%s + %s", "@2020-01-01"}, {"OLt", "%s < %s", "@T10:00"}, {"OEq", "%s = %s", "Patient.name"},
 		{"OAdd", "%s + %s", "1.5"}, {"OSub", "%s - %s", "2 days"}, {"OEq", "%s = %s", "Patient.active"},
+		// the other operand is not a singleton primitive: empty still wins
+		{"OAdd", "%s + %s", "Patient.name.given"}, {"OSub", "%s - %s", "Patient.name.first()"}, {"OMul", "%s * %s", "Patient.name"}, {"ODiv", "%s / %s", "Patient.name.given"},
+		{"OIDiv", "%s div %s", "Patient"}, {"OMod", "%s mod %s", "Patient.communication"}, {"OLt", "%s < %s", "Patient.name.first()"}, {"OLe", "%s <= %s", "Patient.name.given"},
+		{"OGt", "%s > %s", "Patient.name"}, {"OGe", "%s >= %s", "Patient.communication.preferred"}, {"ONe", "%s != %s", "Patient.name.given"},
 	}
 	for _, o := range ops {
 		for _, e := range empties {
